@@ -23,7 +23,12 @@
        a query after which updates continue.
    They rest on the hasher invariant CInv of Proofs/CHasherP4.v (analogue of Inv in
    Proofs/HasherP.v): established by hasher_init_base, preserved by hasher_update from any
-   state satisfying it, and sufficient for the roll-up loop of finalize_seek. *)
+   state satisfying it, and sufficient for the roll-up loop of finalize_seek.
+   The last part of the file is the END-TO-END theorem over the whole C case language:
+     C06_machine_refines_spec  every history the specification-only machine
+       (Model/CSpecMachine.v) accepts is reproduced observation for observation, without a
+       panic, by c_run_case on every PlatformOK platform (Proofs/CMachineRefinesP.v);
+     C06_machine_no_panic, C06_machine_platform_independent, C06_machine_equals_rust. *)
 From Coq Require Import NArith ZArith List Bool.
 From V Require Import Base.Res Base.Word Base.MachInt gen.GenConsts gen.GenFormulas
   Spec.Compress Spec.Tree Spec.Blake3 Model.Portable Model.Platform Model.RsChunk Model.RsWide Model.CHasher
@@ -295,3 +300,165 @@ Print Assumptions C06_nonvacuous_multi_update_wide.
    c_final_output_spec: the analogue of final_output_spec in Proofs/HasherP.v), the tail of update (the last partial
    chunk and the extra merge: c_update_tail_spec) and the "finish the partial chunk" prefix (c_hasher_update_spec),
    over the invariant CInv.  Nothing in C06 remains partial. *)
+
+(* ==== the END-TO-END theorem for the C history machine =====================================================
+   Statements only; proofs in Proofs/CMachineRefinesP.v.
+
+   CHasher.c_run_case is the IMPLEMENTATION machine: the `CH` case language of harness/c/driver.c (new instance,
+   update, zero-length update, finalize(n), finalize_seek(seek, n), zero-length finalize, reset, clone = memcpy,
+   cmp = memcmp of two structs) interpreted over the executable model of c/blake3.c.
+   CSpecMachine.c_spec_run_case is the SPECIFICATION machine: the same language interpreted with Spec/*.v only -
+   one byte list per blake3_hasher (what it has absorbed since the last reset); finalize / finalize_seek observe
+   `stream spec_c64 (subtree_output spec_c8 tree_height K F 0 bytes) seek n` for the key words K and flags F of the
+   mode of the case; zero-length calls change and observe nothing; None when an instance does not exist, when the
+   input of an instance would reach 2^64 bytes, or when seek + n > 2^64 - 1.
+   cmp: the raw bytes of a struct (stale cv_stack slots, stale chunk buffer bytes) are not determined by the bytes
+   absorbed, so the specification machine answers a cmp only where equality is FORCED: each instance also carries
+   the trace of the state-changing calls (non-empty updates, resets) made on its struct since the initialiser ran
+   (a clone copies it); every struct of a case comes from the same initialiser call, so equal traces force equal
+   structs and the observation is `same = true`.  This covers an instance against its clone after the same calls on
+   both, and a fresh instance against one that only saw zero-length calls and finalizes.  With different traces the
+   specification machine answers None (the theorem then says nothing about that history).
+
+   Whenever the specification machine accepts a history, the implementation machine produces exactly the same
+   observations and does not panic (no array index out of bounds, no C assert, no unsigned wrap-around), on every
+   PlatformOK platform, i.e. at every feature level the dispatcher of the C library can select. *)
+From V Require Model.Machine Model.SpecMachine.
+From V Require Import Model.CSpecMachine Proofs.CMachineRefinesP.
+
+(* the domain of a mode *)
+Theorem C06_mode_ok_def : forall m,
+  c_mode_ok m = match m with
+                | CMHash => True
+                | CMKeyed k => length k = 32%nat
+                | CMDerive c | CMDeriveRaw c => len c < 2 ^ 64
+                end.
+Proof. reflexivity. Qed.
+
+(* the main theorem *)
+Theorem C06_machine_refines_spec : forall p, PlatformOK p -> forall m ops obs,
+  c_mode_ok m ->
+  c_spec_run_case m ops = Some obs ->
+  c_run_case p m ops = (obs, Ok tt).
+Proof. exact c_machine_refines_spec. Qed.
+
+(* every initialiser (init, init_keyed, init_derive_key on the NUL-terminated copy, init_derive_key_raw) leaves
+   hasher_init_base over the driver's memory with the key words and flags of the specification's mode *)
+Theorem C06_new_hasher_spec : forall p, PlatformOK p -> forall m, c_mode_ok m ->
+  c_new_hasher p m = Ok (c_hasher_init_base c_mem_cd (mode_key (c_spec_mode m)) (mode_flags (c_spec_mode m))).
+Proof. exact c_new_hasher_spec. Qed.
+
+(* the simulation relation: struct i has absorbed exactly ci_bytes (CInv of Proofs/CHasherP4.v) and is what the
+   traced calls make of the initialiser's struct *)
+Theorem C06_CSim_def : forall p m hs ss,
+  CSim p m hs ss <->
+  Forall2 (fun h x =>
+             CInv (mode_key (c_spec_mode m)) (mode_flags (c_spec_mode m)) h (ci_bytes x) /\
+             c_replay p (c_hasher_init_base c_mem_cd (mode_key (c_spec_mode m)) (mode_flags (c_spec_mode m)))
+                      (ci_trace x) = Ok h) hs ss.
+Proof. intros. reflexivity. Qed.
+
+Theorem C06_replay_def : forall p h tr,
+  c_replay p h tr = match tr with
+                    | [] => Ok h
+                    | CEvUpdate b :: tl => h' <- c_hasher_update p h b ;; c_replay p h' tl
+                    | CEvReset :: tl => c_replay p (c_hasher_reset h) tl
+                    end.
+Proof. intros p h [|[b|] tl]; reflexivity. Qed.
+
+(* one step, for EVERY op of the language *)
+Theorem C06_step_refines_spec : forall p, PlatformOK p -> forall m, c_mode_ok m -> forall o hs ss ss' out,
+  CSim p m hs ss -> c_sstep m ss o = Some (ss', out) ->
+  exists hs', c_step p m hs o = Ok (hs', out) /\ CSim p m hs' ss'.
+Proof. exact c_step_refines_spec. Qed.
+
+(* any history from any pair of related states *)
+Theorem C06_run_refines_spec : forall p, PlatformOK p -> forall m, c_mode_ok m -> forall ops hs ss obs,
+  CSim p m hs ss -> c_srun m ss ops = Some obs -> c_run_ops p m hs ops [] = (obs, Ok tt).
+Proof. exact c_run_refines_spec. Qed.
+
+(* consequences: no panic; the observations do not depend on the dispatcher's feature level *)
+Theorem C06_machine_no_panic : forall p, PlatformOK p -> forall m ops obs,
+  c_mode_ok m -> c_spec_run_case m ops = Some obs -> snd (c_run_case p m ops) = Ok tt.
+Proof. exact c_machine_no_panic. Qed.
+
+Theorem C06_machine_platform_independent : forall p1 p2, PlatformOK p1 -> PlatformOK p2 -> forall m ops obs,
+  c_mode_ok m -> c_spec_run_case m ops = Some obs -> c_run_case p1 m ops = c_run_case p2 m ops.
+Proof. exact c_machine_platform_independent. Qed.
+
+(* the C library and the Rust crate: a history of new / update / finalize(n) / reset exists in both case
+   languages (finalize(n) is finalize_xof + fill(n) on the Rust side); both implementation machines produce the
+   same output bytes *)
+Theorem C06_to_rs_def :
+  (forall m, c_to_rs_mode m = match m with
+                              | CMHash => Machine.MHash
+                              | CMKeyed k => Machine.MKeyed k
+                              | CMDerive c => Machine.MDerive (c_str_prefix c)
+                              | CMDeriveRaw c => Machine.MDerive c
+                              end) /\
+  (forall o, c_to_rs_op o = match o with
+                            | COpNew => Some Machine.OpNew
+                            | COpUpdate i b => Some (Machine.OpUpdate i b)
+                            | COpFinalize i n => Some (Machine.OpXof i n)
+                            | COpReset i => Some (Machine.OpReset i)
+                            | _ => None
+                            end) /\
+  (forall l, c_to_rs_ops l = match l with
+                             | [] => Some []
+                             | o :: tl => match c_to_rs_op o, c_to_rs_ops tl with
+                                          | Some o', Some tl' => Some (o' :: tl')
+                                          | _, _ => None
+                                          end
+                             end).
+Proof. repeat split; intros []; reflexivity. Qed.
+
+Theorem C06_machine_equals_rust : forall p1 p2, PlatformOK p1 -> PlatformOK p2 -> forall pname m cops ops obs,
+  c_mode_ok m -> c_to_rs_ops cops = Some ops -> c_spec_run_case m cops = Some obs ->
+  exists outs, c_run_case p1 m cops = (map CObXof outs, Ok tt) /\
+               Machine.run_case p2 pname (c_to_rs_mode m) ops = (map Machine.ObXof outs, Ok tt).
+Proof. exact c_machine_equals_rust. Qed.
+
+(* non-vacuity: a keyed history over four structs with updates across a chunk boundary, zero-length calls, clone,
+   reset, finalize, finalize_seek and four forced comparisons (instance 0 against its clone 1 after the same
+   update on both; the fresh instance 2 against instance 3 that only saw zero-length calls; 0 against 1 again after
+   both were reset) is accepted by the specification machine and the implementation machine yields the same 11
+   observations at two dispatch levels *)
+Definition C06_machine_ops : list c_op :=
+  [COpUpdate 0 (repeat 7 1500); COpClone 0; COpUpdate 0 [1; 2; 3]; COpUpdate 1 [1; 2; 3]; COpCmp 0 1;
+   COpFinalize 0 32; COpFinalizeSeek 1 60 10; COpNew; COpNew; COpUpdate0 3; COpUpdate 3 []; COpFinalize0 3;
+   COpFinalizeSeek 3 5 0; COpCmp 2 3; COpCmp 3 2; COpReset 0; COpReset 1; COpCmp 1 0; COpUpdate 0 (repeat 9 70);
+   COpFinalizeSeek 0 1000 3; COpFinalize 1 5; COpFinalizeSeek 2 18446744073709551610 5].
+
+Example C06_machine_nonvacuous :
+  let m := CMKeyed (map N.of_nat (seq 0 32)) in
+  c_mode_ok m /\
+  exists obs, c_spec_run_case m C06_machine_ops = Some obs /\
+              c_run_case (c_platform 1) m C06_machine_ops = (obs, Ok tt) /\
+              c_run_case (c_platform 16) m C06_machine_ops = (obs, Ok tt) /\ length obs = 11%nat.
+Proof.
+  cbv zeta. split; [reflexivity|]. eexists. split; [vm_compute; reflexivity|].
+  split; [vm_compute; reflexivity|]. split; vm_compute; reflexivity.
+Qed.
+
+(* the specification machine refuses a cmp whose outcome is not forced (here the structs do differ), an output
+   position beyond 2^64 - 1, and an instance that does not exist *)
+Example C06_machine_spec_refuses :
+  c_spec_run_case CMHash [COpNew; COpUpdate 1 [1]; COpCmp 0 1] = None /\
+  c_run_case (c_platform 1) CMHash [COpNew; COpUpdate 1 [1]; COpCmp 0 1] = ([CObSame false], Ok tt) /\
+  c_spec_run_case CMHash [COpFinalizeSeek 0 18446744073709551610 6] = None /\
+  c_spec_run_case CMHash [COpFinalize 1 32] = None.
+Proof. repeat split; vm_compute; reflexivity. Qed.
+
+Print Assumptions C06_mode_ok_def.
+Print Assumptions C06_machine_refines_spec.
+Print Assumptions C06_new_hasher_spec.
+Print Assumptions C06_CSim_def.
+Print Assumptions C06_replay_def.
+Print Assumptions C06_step_refines_spec.
+Print Assumptions C06_run_refines_spec.
+Print Assumptions C06_machine_no_panic.
+Print Assumptions C06_machine_platform_independent.
+Print Assumptions C06_to_rs_def.
+Print Assumptions C06_machine_equals_rust.
+Print Assumptions C06_machine_nonvacuous.
+Print Assumptions C06_machine_spec_refuses.
